@@ -39,6 +39,9 @@ def corpus(tier):
     for I, G, ar in b["const_spaces"]:
         for gates in space.circuits(I, G, max_arity=ar, consts=("0", "1"), min_gates=G):
             yield space.to_desc(I, gates, consts=("0", "1"), outputs="sinks")
+    # no primary input at all
+    for gates in space.circuits(0, 2, types=("and", "xor", "not", "nor"), max_arity=2, consts=("0", "1"), min_gates=1):
+        yield space.to_desc(0, gates, consts=("0", "1"), outputs="sinks")
     # outputs that are inputs / constants, wide gates
     for t in space.MULTI:
         for m in (4, 5):
@@ -48,14 +51,16 @@ def corpus(tier):
             yield {"name": "top", "nodes": nodes}
 
 
-def check(acc, desc, order):
+def check(acc, desc, order, repeat=False):
     import circuitgraph as cg
 
-    case = {"kind": "ternary", "desc": desc, "order": order}
+    case = {"kind": "ternary", "desc": desc, "order": order, "repeat": repeat}
     c = space.build(desc, order="rev" if order == "rev" else None)
     ins = sorted(c.inputs())
     acc.transitions += 1
     try:
+        if repeat:
+            cg.tx.ternary(c)  # an earlier call on the same object must not matter
         t, mapping = cg.tx.ternary(c)
     except Exception as e:  # noqa: BLE001
         acc.violation("ternary", f"raises:{common.exc_name(e)}", case, repr(e))
@@ -151,6 +156,9 @@ def run(job):
             acc.states += 1
             if check(acc, desc, order):
                 acc.nontrivial += 1
+        if (_idx // job["of"]) % 8 == 0:
+            acc.states += 1
+            check(acc, desc, "fwd", repeat=True)
         acc.sample({"desc": desc})
         if acc.out_of_time():
             break
@@ -160,5 +168,5 @@ def run(job):
 def replay(case, job):
     common.setup_paths()
     acc = Acc(job)
-    check(acc, case["desc"], case.get("order", "fwd"))
+    check(acc, case["desc"], case.get("order", "fwd"), repeat=case.get("repeat", False))
     return acc.result()
